@@ -16,13 +16,16 @@
 (*                    transaction (0: the last one)                         *)
 (*   a = "Store"      StoreOK or StoreFail (UStoreOK / UStoreFail), which-  *)
 (*                    ever the state yields                                 *)
-(* Scripts is defined by the generated module (TheScripts).                 *)
+(* The scripts come from the module ZBlobScriptData, which the harness      *)
+(* generates next to a copy of this one (the file in spec/ is an empty       *)
+(* placeholder).  A definition - unlike a substituted constant - is          *)
+(* evaluated by TLC once.                                                    *)
 (***************************************************************************)
-EXTENDS MCZBlob
-CONSTANT Scripts
+EXTENDS MCZBlob, ZBlobScriptData
 VARIABLES sid, pc, act
 svars == <<vars, sid, pc, act>>
 
+Scripts == TheScripts
 E == Scripts[sid][pc]
 More == pc <= Len(Scripts[sid])
 B(b) == IF b = 0 THEN nextb ELSE b
